@@ -1352,7 +1352,8 @@ def _pa_join_model(cx, rep, port, p, mod, rj):
     scen = [([('a1', 'b2')], ([g(0)], [1])), ([('b2', 'a1')], ([g(0)], [1])), ([('NR', 'b1')], (['NR'], [0])), ([('aNR', 'b2')], (['NR'], [1])), ([('a.NR', 'b1')], (['NR'], [0])),
             ([('a2', 'bNR')], ([g(1)], [-1])), ([('a2', 'b.NR')], ([g(1)], [-1])), ([('bNR', 'a1')], ([g(0)], [-1])), ([('NR', 'bNR')], (['NR'], [-1])),
             ([('b1', 'NR')], 'ERR'), ([('a1', 'a2')], 'ERR'), ([('q1', 'b1')], 'ERR'), ([('a1', 'q2')], 'ERR'), ([('x', 'b1')], 'ERR'),
-            ([('a1', 'b1'), ('b2', 'a2')], ([g(0), g(1)], [0, 1])), ([('a2', 'b1'), ('NR', 'b2')], ([g(1), 'NR'], [0, 1]))]
+            ([('a1', 'b1'), ('b2', 'a2')], ([g(0), g(1)], [0, 1])), ([('a2', 'b1'), ('NR', 'b2')], ([g(1), 'NR'], [0, 1])),
+            ([('a1', 'b1'), ('a2', 'b2'), ('a1', 'b2')], ([g(0), g(1), g(0)], [0, 1, 1]))]
     bad = {}
 
     def on_attr(ex, node, obj, attr):
